@@ -70,7 +70,7 @@ add("C18", ENGINE_NET, "exploration", "deterministic simulation: real SumDB clie
     BASE_NOTE + " x/mod tlog.Tile.Path is the named reference for paths.", "DESIGN.md 5/C18")
 
 add("C10", ENGINE_NET, "exploration", "deterministic simulation: real handler + real witness in a synctest bubble, seeded request sequences at seeded instants (bursts, silences), status table from the sequential model, token-bucket bound on the fake clock",
-    "The real add-checkpoint handler (via the add-only overlay constructor) behind the 16 KiB cap and in front of the real witness on both stores answers seeded sequences of well-formed requests of every verdict class, malformed bodies and unlisted origins issued at seeded simulated instants; statuses, the stale-size body, the cosignature body and the rate limiter (429 => not processed; any-token-bucket upper bound; service after silence) are checked. The TLS/HTTP2 reverse connection is not run in simulated time (DESIGN.md 3.9).",
+    "The real add-checkpoint handler (via the add-only overlay constructor) behind the 16 KiB cap and in front of the real witness on both stores answers seeded sequences of well-formed requests of every verdict class, malformed bodies and unlisted origins issued at seeded simulated instants; statuses, the stale-size body, the cosignature body and the rate limiter (429 => not processed; any-token-bucket upper bound; service after silence) are checked. A second, clearly labelled half runs the real FeedBastion end to end over loopback TLS 1.3 + HTTP/2 against a stub bastion in REAL time (sequential script incl. a body beyond the 16 KiB cap, a dropped connection and reconnect); that half is not schedule-controlled and replays as a request script (DESIGN.md 3.9).",
     BASE_NOTE, "DESIGN.md 5/C10")
 add("C11", ENGINE_NET, "exploration", "deterministic simulation: stream faults (every truncation and read-error offset before the separator, seeded chunking) on generated bodies through the real handler to a recording witness",
     "Generated bodies are delivered to the real handler through a reader that chunks, ends or fails at every byte offset before the separator; intact => the recording witness received exactly what was written; cut/malformed => 400 and no call. The Proof text round trip is asserted on the same data (no fault dimension; carried along).",
